@@ -28,7 +28,7 @@ pub mod feats {
         fn sum(self: @Pt) -> u16 { (*self.x).into() + (*self.y).into() }
     }
     #[inline(never)]
-    pub fn f_implicits(x: felt252) -> felt252 implicits(RangeCheck) nopanic { x }
+    pub fn f_implicits(x: felt252) -> felt252 implicits(core::RangeCheck) nopanic { x }
     #[inline(never)]
     pub fn f_nopanic(x: u8) -> u8 nopanic { x }
     #[inline(never)]
@@ -90,4 +90,101 @@ pub mod feats {
     pub trait HasK { const K: u8; type Out; fn get(self: u8) -> Self::Out; }
     pub impl HasKImpl of HasK { const K: u8 = 5; type Out = u16; fn get(self: u8) -> u16 { self.into() + Self::K.into() } }
     pub fn f_uses_hidden(a: u8) -> u8 { f_hidden(a) / 2 + f_private(a) / 2 }
+}
+pub mod feats2 {
+    use core::dict::Felt252Dict;
+    use core::hash::{HashStateExTrait, HashStateTrait};
+    use core::poseidon::PoseidonTrait;
+    // const fn, usable from the dependent's consts
+    pub const fn cf(x: u8) -> u8 { x / 2 + 1 }
+    pub const LIMIT2: u32 = 40;
+    pub const C_REF: u32 = LIMIT2 * 2 + 1;
+    pub const C_BOOL: bool = true;
+    pub const C_I128: i128 = -170141183460469231731687303715884105728;
+    pub const C_U64: u64 = 0xffffffffffffffff;
+    pub const C_NZ: NonZero<u8> = 5;
+    pub const C_E5: super::feats::E5 = super::feats::E5::B(3);
+    pub const C_NESTED: (super::feats::Pt, [u8; 2], Option<(u8, u8)>) = (super::feats::Pt { x: 1, y: 2 }, [3, 4], Option::Some((5, 6)));
+    pub const C_FROM_FN: u8 = cf(200);
+    // glob re-export
+    pub mod inner {
+        pub fn gi(a: u8) -> u8 { a / 3 }
+        #[derive(Copy, Drop)]
+        pub struct GS { pub v: u8 }
+        pub fn not_reexported_privately(a: u8) -> u8 { a }
+    }
+    pub use core::num::traits::Zero as Z;
+    // two impls of one trait, a generic function over it
+    pub trait Nm<T> { fn nm(self: @T) -> felt252; }
+    pub impl NmU8 of Nm<u8> { fn nm(self: @u8) -> felt252 { 'u8' } }
+    pub impl NmU16 of Nm<u16> { fn nm(self: @u16) -> felt252 { 'u16' } }
+    pub fn name_of<T, +Nm<T>>(x: @T) -> felt252 { Nm::nm(x) }
+    // same-named items in two modules
+    pub mod ma { pub fn same(a: u8) -> u8 { a / 2 + 1 } }
+    pub mod mb { pub fn same(a: u8) -> u8 { a / 2 + 2 } }
+    // used before declared
+    pub fn early(a: u8) -> u8 { late(a) / 2 }
+    fn late(a: u8) -> u8 { a / 2 + 4 }
+    // generic enum
+    #[derive(Copy, Drop)]
+    pub enum Ei<T> { L: T, R: (T, T) }
+    pub fn ei_first<T, +Drop<T>, +Copy<T>>(e: Ei<T>) -> T { match e { Ei::L(x) => x, Ei::R((x, _)) => x } }
+    // never type, tuples of size 0 and 1
+    pub fn boom(a: u8) -> core::never { core::panic_with_felt252('boom') }
+    pub fn t0() -> () {}
+    pub fn t1(a: u8) -> (u8,) { (a,) }
+    // literals
+    pub fn big() -> felt252 { 0x7ffffffffffffffffffffffffffffffffffffffffffffffffffffffffffff }
+    pub fn negbig() -> felt252 { -0x7ffffffffffffffffffffffffffffffffffffffffffffffffffffffffffff }
+    pub fn shortstr() -> felt252 { 'a long short string of 31 chars' }
+    pub fn bigu256() -> u256 { 0xffffffffffffffffffffffffffffffffffffffffffffffffffffffffffffffff }
+    pub fn longbytes() -> ByteArray { "a byte array longer than thirty-one bytes, so that it has a full word" }
+    pub fn escapes() -> ByteArray { "tab\there \"quoted\" \\ and \x41" }
+    // derives
+    #[derive(Drop, Clone, Default, PartialEq, Debug, Serde, Hash)]
+    pub struct Rec { pub a: u8, pub b: u16 }
+    #[derive(Drop, Clone, PartialEq, Debug, Serde, Default)]
+    pub enum Col { #[default] Red, Green: u8, Blue: Rec }
+    pub fn rec_hash(r: Rec) -> felt252 { PoseidonTrait::new().update_with(r).finalize() }
+    // private member
+    pub struct Priv { pub a: u8, b: u8 }
+    pub fn mk_priv(a: u8) -> Priv { Priv { a, b: a / 2 } }
+    pub impl PrivDrop of Drop<Priv>;
+    // const generic
+    pub fn cg<const N: u8>() -> u8 { N / 2 }
+    pub fn fixed_sum<const N: usize>(a: [u8; N]) -> usize { N }
+    // generic impl with bound, snapshot generic
+    pub struct W2<T> { pub v: T }
+    pub impl W2Drop<T, +Drop<T>> of Drop<W2<T>>;
+    pub fn snap_len<T>(a: @Array<T>) -> u32 { a.len() }
+    pub fn fspan(a: u8) -> Span<u8> { [a, 1, 2].span() }
+    // handwritten Destruct with an effect-free body, PanicDestruct via derive
+    pub struct HD { pub d: Felt252Dict<u8> }
+    pub impl HDDestruct of Destruct<HD> { fn destruct(self: HD) nopanic { let HD { d } = self; d.squash(); } }
+    pub fn mk_hd(a: u8) -> HD { let mut d: Felt252Dict<u8> = Default::default(); d.insert(2, a); HD { d } }
+    // two traits with a same-named method (ambiguity at the dependent)
+    pub trait AmbA<T> { fn amb(self: T) -> u8; }
+    pub trait AmbB<T> { fn amb(self: T) -> u8; }
+    pub impl AmbAU8 of AmbA<u8> { fn amb(self: u8) -> u8 { 1 } }
+    pub impl AmbBU8 of AmbB<u8> { fn amb(self: u8) -> u8 { 2 } }
+    // plain #[inline], a function using a deprecated item under its feature
+    #[inline]
+    pub fn f_inline(a: u8) -> u8 { a / 2 + 3 }
+    #[feature("old-f")]
+    pub fn uses_dep(a: u8) -> u8 { super::feats::f_dep(a) }
+    #[cfg(test)]
+    pub fn only_in_tests(a: u8) -> u8 { a }
+    // early returns, `?`, nested loops with breaks, match on tuple
+    pub fn q(a: u8) -> Option<u8> { let x = super::feats::f_opt(a)?; if x > 100 { return None; } Some(x / 2) }
+    pub fn nested_loops(a: u8) -> u32 {
+        let mut t = 0_u32;
+        let mut i = 0_u8;
+        while i < a % 4 {
+            let mut j = 0_u8;
+            loop { if j > i { break; } t += 1; j += 1; }
+            i += 1;
+        }
+        t
+    }
+    pub fn tup_match(a: u8, b: bool) -> u8 { match (a % 3, b) { (0, true) => 1, (0, false) => 2, (1, _) => 3, _ => 4 } }
 }
